@@ -504,6 +504,30 @@ func ruleCloseOrder(p *Prog, r *RuleResult) {
 			}
 		}
 	})
+	// the end-marker writes may live in a helper of Close (but not in the processBlock/writeHeader chain)
+	isZeroWrite := func(i ssa.Instruction) bool {
+		c := callOf(i)
+		if c == nil || !c.IsInvoke() || c.Method.Name() != "WriteBits" || len(c.Args) < 1 {
+			return false
+		}
+		recv := namedOf(c.Value.Type())
+		return recv != nil && recv.Obj().Pkg() != nil && recv.Obj().Pkg().Path() == p.ModPath && isZeroConst(c.Args[0])
+	}
+	memo := map[*ssa.Function]int{}
+	eachInstr(wc, func(i ssa.Instruction) {
+		h := helperCallee(i, FnPkg(wc))
+		if h == nil || (pbCall != nil && i == ssa.Instruction(pbCall)) || h.Name() == "processBlock" || h.Name() == "writeHeader" {
+			return
+		}
+		if p.containsDeep(h, isZeroWrite, memo) {
+			// count the zero writes inside the helper
+			eachInstr(h, func(j ssa.Instruction) {
+				if isZeroWrite(j) {
+					markers = append(markers, i)
+				}
+			})
+		}
+	})
 	if pbCall == nil || obsClose == nil || len(closedStores) == 0 {
 		undecided("%s: cannot find processBlock call / bitstream Close / closed store", wname)
 	}
